@@ -68,4 +68,8 @@ theorem sigma8_normalisation_wiring :
     Gen.Flow.wiring.lookup "Transfer._unn_sig8/filters.TopHat" = some Spec.Wiring.sig8Narrow ∧
     Gen.Flow.wiring.lookup "Transfer._unn_sig8/filters.TopHat#2" = some Spec.Wiring.sig8Wide := by decide
 
+/-- the filter used for variances at the object's redshift is built on the power at that redshift (`power`, which scales with growth²),
+    not on the z = 0 spectrum -/
+theorem normalised_filter_wiring : Gen.Flow.wiring.lookup "MassFunction.normalised_filter" = some Spec.Wiring.normalisedFilter := by decide
+
 end Hmf.C03
